@@ -73,7 +73,9 @@ fn collect(clients: &mut [Client], quiet: Duration, max: Duration) -> Vec<String
     let mut v = Vec::new();
     let t0 = std::time::Instant::now();
     let mut last = std::time::Instant::now();
-    while last.elapsed() < quiet && t0.elapsed() < max {
+    // nothing received yet: give a loaded machine a full second before concluding that there is no reply
+    let patience = Duration::from_millis(1000).max(quiet);
+    while t0.elapsed() < max && (if v.is_empty() { t0.elapsed() < patience } else { last.elapsed() < quiet }) {
         for (i, c) in clients.iter_mut().enumerate() {
             let mut dead = false;
             if let Some(conn) = c.conn.as_mut() {
@@ -126,7 +128,7 @@ pub fn run(out: &mut impl Write, seed: u64, cases: usize, _replay: &str, burst: 
         let pids: Vec<[u8; 20]> = (0..64u8).map(|i| id20(0x2d, i)).collect();
         let mut forwarded: Vec<(String, String, usize, String)> = Vec::new(); // hash, from pid, to client, offer id
         let mut next_oid: u8 = 1;
-        let nops = if burst_case { 8 } else { 14 + r.below(14) as usize };
+        let nops = if burst_case { 8 } else { 10 + r.below(10) as usize };
         for opi in 0..nops {
             let live: Vec<usize> = (0..clients.len()).filter(|i| clients[*i].conn.is_some()).collect();
             if live.len() < 2 { break; }
@@ -178,7 +180,7 @@ pub fn run(out: &mut impl Write, seed: u64, cases: usize, _replay: &str, burst: 
                 let text = announce_json(&hash, &pid, &event, left, &offers, &answer);
                 let line = crate::wsstore::Op::Ann { fam: 4, consumer: 0, slot: ci as u32, allowed: true, now: 0, hash, pid, event, left, offers, answer }.text();
                 if !clients[ci].conn.as_mut().unwrap().send_text(&text, 15000) { clients[ci].conn = None; }
-                let got = collect(&mut clients, Duration::from_millis(150), Duration::from_secs(3));
+                let got = collect(&mut clients, Duration::from_millis(500), Duration::from_secs(5));
                 for m in &got {
                     let p: Vec<&str> = m.split(':').collect();
                     if p.len() == 6 && p[0] == "O" {
@@ -193,7 +195,7 @@ pub fn run(out: &mut impl Write, seed: u64, cases: usize, _replay: &str, burst: 
                 let req = if hs.len() == 1 && r.chance(50) { format!(r#"{{"action":"scrape","info_hash":{}}}"#, js20(&hs[0])) }
                           else { format!(r#"{{"action":"scrape","info_hash":[{}]}}"#, hs.iter().map(js20).collect::<Vec<_>>().join(",")) };
                 if !clients[ci].conn.as_mut().unwrap().send_text(&req, 15000) { clients[ci].conn = None; }
-                let got = collect(&mut clients, Duration::from_millis(150), Duration::from_secs(3));
+                let got = collect(&mut clients, Duration::from_millis(500), Duration::from_secs(5));
                 writeln!(out, "wscr 4 0 {} {} => {}", ci, hs.iter().map(|h| hex(h)).collect::<Vec<_>>().join(","), if got.is_empty() { "-".to_string() } else { got.join(" ") }).unwrap();
             } else if k < 92 {
                 let orderly = r.chance(50);
@@ -207,7 +209,7 @@ pub fn run(out: &mut impl Write, seed: u64, cases: usize, _replay: &str, burst: 
                 // garbage on this connection: an error reply, nobody else is affected
                 let text = r.pick(&["{", "[1,2,3]", "{\"action\":\"announce\"}", "not json", "{\"action\":\"scrape\"}"]);
                 if !clients[ci].conn.as_mut().unwrap().send_text(text, 15000) { clients[ci].conn = None; }
-                let got = collect(&mut clients, Duration::from_millis(150), Duration::from_secs(3));
+                let got = collect(&mut clients, Duration::from_millis(500), Duration::from_secs(5));
                 writeln!(out, "wbad 4 0 {} {} => {}", ci, hex(text.as_bytes()), if got.is_empty() { "-".to_string() } else { got.join(" ") }).unwrap();
             }
         }
